@@ -364,7 +364,7 @@ def run_C12(ctx):
             hist[(kind, got)] = hist.get((kind, got), 0) + 1
             if want is not None:
                 ctx.nontrivial.add(vlib.sha(text))
-            case = dict(kind=kind, grammar_text=text, grammar_sha=vlib.sha(text), expected=want or 'processed', observed=got or 'processed')
+            case = dict(defect=kind, grammar_text=text, grammar_sha=vlib.sha(text), expected=want or 'processed', observed=got or 'processed')
             refuse = {'undefined': ('undefined',), 'unproductive': ('unproductive',), 'norule': ('norule',)}
             if want is None and got is not None:
                 ctx.violation('counterexample', 'usable grammar (%s) is refused: %s' % (desc, got), case, interface='I1e')
